@@ -1,4 +1,5 @@
 import TCV.Lemmas.StoreFrame
+import TCV.Lemmas.StoreForce
 /-!
 # C07 — forcing recomputes exactly what was asked (machine level)
 -/
@@ -113,5 +114,59 @@ theorem forced_runs_again (U : Universe) (f : Nat → List V → V) (fails : Nat
         refine ⟨?_, by simp [upd], fun hp => by simp [hp, upd]⟩
         simp only [hnew]
         simp
+
+/-- **a forced task runs exactly once on its next request** (no failures): it is appended to the run log exactly
+once, ends in memory, and its stored result is (re)written; nothing that had a result in memory runs -/
+theorem forced_runs_once (U : Universe) (f : Nat → List V → V) (htopo : Topo U) (fuel : Nat)
+    (s : St V) (i : Nat) (hi : i < fuel) (hf : s.forced i = true) (hm : s.mem i = none) :
+    ∃ s' v new, value U f nofailF fuel s i = (s', some v) ∧ s'.runs = s.runs ++ new ∧ new.count i = 1 ∧
+      s'.mem i = some v ∧ ((obj U i).persist = true → (s'.store (obj U i).loc).isSome) ∧
+      (∀ j ∈ new, s.mem j = none) := by
+  obtain ⟨s', v, new, hv, a, hmi⟩ := facct_all U f htopo fuel s i hi
+  have hin : i ∈ new := by
+    rcases a.forcedMem i hf hmi with h | h
+    · rw [hm] at h; cases h
+    · exact h
+  refine ⟨s', v, new, hv, a.runs, (by rw [List.Nodup.count a.nodup]; simp [hin]), ?_, a.stored i hin, a.wasNone⟩
+  -- the value returned is the one now in memory: a second request returns it from memory
+  cases fuel with
+  | zero => omega
+  | succ n =>
+    simp only [value, hm, hf, Bool.not_true, Bool.and_false, Bool.false_eq_true, if_false] at hv
+    split at hv
+    · cases hv
+    · split at hv
+      · cases hv
+      · split at hv
+        · cases hv
+        · cases hv; simp [upd]
+
+/-- **`recompute` leaves every forced task recomputed exactly once — for every iteration order.**
+After `chain.force(S, recompute=True)` on any state: every task of the downstream closure appears exactly once in the
+runs appended by the recomputation, whatever order `order` the forced set is iterated in (any list containing the
+forced set), is in memory afterwards and (if persisting) stored; and every request returned a value. -/
+theorem recompute_all_once (U : Universe) (f : Nat → List V → V) (htopo : Topo U) (fuel : Nat) (s : St V)
+    (F order : List Nat) (del : Bool) (hord : ∀ x ∈ F, x ∈ order) (hlt : ∀ t ∈ order, t < fuel) :
+    let s1 := forceAll U del s F
+    let s2 := (valueAll U f nofailF fuel s1 order).1
+    ∃ app, s2.runs = s.runs ++ app ∧ app.Nodup ∧
+      (∀ x ∈ F, app.count x = 1 ∧ (s2.mem x).isSome ∧ ((obj U x).persist = true → (s2.store (obj U x).loc).isSome)) ∧
+      (∀ r ∈ (valueAll U f nofailF fuel s1 order).2, r.isSome) := by
+  intro s1 s2
+  obtain ⟨app, a, hmem, hres⟩ := facct_valueAll U f htopo fuel order s1 hlt
+  refine ⟨app, by rw [a.runs, forceAll_runs], a.nodup, ?_, hres⟩
+  intro x hx
+  have hf1 : s1.forced x = true := by
+    show (forceAll U del s F).forced x = true
+    rw [forceAll_forced]; simp [hx]
+  have hm1 : s1.mem x = none := by
+    show (forceAll U del s F).mem x = none
+    rw [forceAll_mem]; simp [hx]
+  have hsome := hmem x (hord x hx)
+  have hin : x ∈ app := by
+    rcases a.forcedMem x hf1 hsome with h | h
+    · rw [hm1] at h; cases h
+    · exact h
+  exact ⟨(by rw [List.Nodup.count a.nodup]; simp [hin]), hsome, a.stored x hin⟩
 
 end TCV.C07
